@@ -35,7 +35,9 @@ let order_of_int = function
   | _ -> OtherOrder
 
 let impl_of = function "BST" -> BST | "AVL" -> AVL | _ -> RB
-let cmp_of = function "desc" -> cmp_desc | "diff" -> cmp_diff | "half" -> cmp_half | _ -> cmp_asc
+let cmp_of = function
+  | "desc" -> cmp_desc | "diff" -> cmp_diff | "rdiff" -> cmp_rdiff | "diff3" -> cmp_diff3 | "half" -> cmp_half
+  | _ -> cmp_asc
 let eqv (a : z) (b : z) = (a = b)
 
 let kv_s (k, v) = string_of_int (int_of_z k) ^ ":" ^ string_of_int (int_of_z v)
